@@ -25,8 +25,9 @@ func H07_subscribe() {
 	K := vrtBound("N07filters", 2)
 	max := vrtByte("maxqos")
 	vrtAssume(max <= 2)
-	topics.MaxQosAllowed = max
+	topics.MaxQosAllowed = 2
 	b := vrtBroker("mockSuccess")
+	topics.MaxQosAllowed = max // (changed after the provider exists: the current value counts, not the one at construction)
 	a, _ := b.connect(vrtConnectPkt([]byte("a"), true))
 	w, _ := b.connect(vrtConnectPkt([]byte("w"), true))
 	id := vrtUint16("id")
